@@ -35,7 +35,8 @@ CHECKS = {
              "every strand pair and flag combination, and compared with position-set semantics and the structural "
              "well-formedness of every returned location. For comparison-only kernels (checked syntactically) this is "
              "exhaustive for all integers."
-             " Added: three-block receivers against 1-3-block arguments as all pairs of position sets over a small universe, and closest-block distance in both receiver orders over a wider universe (C02.R6); derived operations extend/shift/reverse/reset_strand/gaps_location/distance_to on all order types (C02.R5); _EmptyLocation identities (C02.R4).",
+             " Added: three-block receivers against 1-3-block arguments as all pairs of position sets over a small universe, and closest-block distance in both receiver orders over a wider universe (C02.R6); derived operations extend/shift/reverse/reset_strand/gaps_location/distance_to on all order types (C02.R5); _EmptyLocation identities (C02.R4)."
+             " The optional interval-index branch of the compound x compound intersection (cgranges, not installed here) is followed through a native model of the index (C02.R7).",
         note="Trusted: CPython ast, sa/interp.py, the oracle in sa/rules/c02.py. Not decided: operands with more blocks "
              "than enumerated, the cgranges path (cgranges is not installed), distance arithmetic, parents.",
         design="DESIGN.md section 4, C02",
@@ -47,7 +48,8 @@ CHECKS = {
              "letter of NT_EXTENDED_GAPPED in both cases, the analyser interprets extraction, strand reversal, splitting "
              "into relative sub-intervals and the derived-sequence operations (all slice bound forms, reverse complement, "
              "append) and compares with the image oracle; a derived sequence's recorded location must spell its characters."
-             " Unstranded locations must be refused. The literal-slice rule C03.R1 only writes a note (all-integers strengthening).",
+             " Unstranded locations must be refused. The literal-slice rule C03.R1 only writes a note (all-integers strengthening)."
+             " Extraction is asked twice on the same object and of the blocks after the whole was extracted.",
         note="Trusted: CPython ast, sa/interp.py (Bio.Seq is modelled as str), IUPAC tables of C15. U is identified with T "
              "for complement round trips. Other alphabets' tables are decided in C15.",
         design="DESIGN.md section 4, C03",
@@ -125,7 +127,8 @@ CHECKS = {
              "interpreted and compared with a coordinate oracle: exact membership, documented bounds, retained member "
              "dictionaries, member sequences restricted to the new bounds, InvalidQueryError for invalid ranges. Attribute "
              "reads on union members are checked against every member class."
-             " Added: the small collection on a sequence chunk and on a chunk with declared bounds wider than the chunk, a variant collection among the members.",
+             " Added: the small collection on a sequence chunk and on a chunk with declared bounds wider than the chunk, a variant collection among the members."
+             " The optional interval-index implementation of the position query is followed through a native model of cgranges (C09.RX).",
         note="Trusted: CPython ast, sa/interp.py. The cgranges path is not taken (not installed).",
         design="DESIGN.md section 4, C09",
     ),
@@ -175,7 +178,8 @@ CHECKS = {
         text="alternative_genomic_sequence (single variant and collections of 1-3 variants: SNV / insertion / deletion, padded, "
              "unpadded, flush with block boundaries), parent_with_alternative_sequence and incorporate_variants on features / "
              "transcripts (single / multi-block, both strands) are interpreted on chromosome and offset chunk and compared with "
-             "literal substitution; dictionary round trips keep the parent; VCF grouping is checked structurally.",
+             "literal substitution; dictionary round trips keep the parent; VCF grouping is checked structurally."
+             " Added: coding transcripts after length-preserving edits keep their reading frame (C13.RC; found and repaired a minus-strand defect); alternative_haplotype_mapping on the pure-Python and on the interval-index branch (C13.RM).",
         note="Trusted: CPython ast, sa/interp.py, oracle in sa/rules/c13.py. The vcf package is absent, the VCF reader is only "
              "analysed structurally. Known findings: sequential lift-over with several length-changing variants; unsorted "
              "CHROM grouping.",
@@ -229,7 +233,8 @@ CHECKS = {
         technique="interpretation of to_bed12 and BED12.__str__; text decoded by an independent 12-column reader",
         text="For every enumerated transcript (coding placements, non-coding) and feature, both strands, chromosome and chunk "
              "parents and both coordinate modes the BED12 text is produced by interpretation and decoded: format invariants "
-             "and decoded blocks / strand / name / CDS bounds must equal the exported ones in the mode's coordinates.",
+             "and decoded blocks / strand / name / CDS bounds must equal the exported ones in the mode's coordinates."
+             " Every mode is exported again on the same object (single-use generators are modelled).",
         note="Trusted: CPython ast, sa/interp.py, decoder in sa/rules/c14.py.",
         design="DESIGN.md section 4, C14",
     ),
